@@ -136,6 +136,8 @@ def catalogue():
     c["dir-in-dir"] = ({"k": "File", "o": {"exists": "dir", "startdir": "@FW"}}, ["adir"], ["fresh.log", "taken.log"])
     c["dict-any-dflt"] = ({"k": "Dict", "o": {"default": D(("d", 1))}}, [D(("k", 1))], ["x"])
     c["list-any-dflt"] = ({"k": "List", "o": {"default": [1, [2]]}}, [[3]], ["x"])
+    c["list-anyfield-dflt"] = ({"k": "List", "item": {"k": "Any"}, "o": {"default": [1, [2]]}}, [[3]], ["x"])      # the item field is an explicit AnyField
+    c["list-anyfield-empty-dflt"] = ({"k": "List", "item": {"k": "Any"}, "o": {"default": []}}, [[3]], ["x"])
     return c
 
 
